@@ -539,7 +539,9 @@ impl RealPrim for Cn {
     }
     fn named(name: &'static str) -> Self {
         match name {
-            "EPS" => Cn::Q(1, 1i128 << 52),
+            // the scalar's epsilon is a parameter of the generic code: a replay supplies the solver model's value
+            // (any value in (0, 2^-20] is a legitimate instantiation), otherwise f64's
+            "EPS" => match with(|e| e.inputs.get("EPS").cloned()) { Some(v) if !v.is_empty() => Cn::parse(&v), _ => Cn::Q(1, 1i128 << 52) },
             "PI" => Cn::F(std::f64::consts::PI),
             "E" => Cn::F(std::f64::consts::E),
             _ => panic!("Cn::named {}", name),
